@@ -204,7 +204,7 @@ func init() {
 	fw.Register(&fw.Check{
 		ID:    "C20",
 		Level: "model_checking",
-		Rule: "for every program of the corpus (accepted and rejected, <=40 tokens): the canonical single-space rendering versus every re-rendering with <=k deviating gaps (k=2 for <=8 tokens (thorough <=12), else 1), each deviating gap taking each of 25 separators {nothing where the reference lexer allows adjacency, tab, VT, FF, CR, LF, CR LF, U+0085, U+00A0, mixes, comments whose bodies hold quotes, backslash, keywords, non-ASCII, '#', ';', ')', U+0085 and end in LF or CR}; all gaps set to one separator; the optional ';' toggled after each statement; " +
+		Rule: "for every program of the corpus (accepted and rejected, <=40 tokens): the canonical single-space rendering versus every re-rendering with <=k deviating gaps (k=2 for <=8 tokens (thorough <=12; thorough k=3 for <=5 tokens), else 1), each deviating gap taking each of 25 separators {nothing where the reference lexer allows adjacency, tab, VT, FF, CR, LF, CR LF, U+0085, U+00A0, mixes, comments whose bodies hold quotes, backslash, keywords, non-ASCII, '#', ';', ')', U+0085 and end in LF or CR}; all gaps set to one separator; the optional ';' toggled after each statement; " +
 			"each whole sub-expression wrapped in 1 or 2 redundant pairs of parentheses. Oracle: identical code and constants sections (independent decoder), identical output/blocks/binding/error message/warning count; rejected stays rejected with the same first diagnostic. " +
 			"Conversely: string literals holding each of 14 special characters at each position of a 3-character body and comments placed before tokens are checked against the reference evaluator byte for byte.",
 		Subs:           []*fw.Sub{subC20, subC20Str},
@@ -256,6 +256,9 @@ func init() {
 				k := 1
 				if len(toks) <= k2 {
 					k = 2
+				}
+				if c.Thorough() && len(toks) <= 5 {
+					k = 3
 				}
 				if parenOnly[src] {
 					k = 0 // the chains are there for their parenthesisations; layouts are covered by the corpus programs
